@@ -871,7 +871,10 @@ func (handler *Handler) QueryResponseHandler(ctx context.Context, packet *Packet
 					return err
 				}
 				output = append(output, fieldDataPacket)
-				if fieldDataPacket.IsEOF() {
+				// only a packet with the 0xFE header ends the rows (EOF packet, or OK packet with
+				// CLIENT_DEPRECATE_EOF); a row whose first column is an empty string starts with 0x00
+				// and must not be taken for an OK packet
+				if fieldDataPacket.IsEOF() && fieldDataPacket.data[0] != OkPacket {
 					dataLog.Debugln("Empty result set")
 					break
 				}
